@@ -87,6 +87,11 @@ def build_c(mod, proof, ix):
         contracts.update(proof.contracts)
     em = emit.Emitter(ix, cfg, contracts)
     root_cnames = []
+    for rn in getattr(mod, "force_records", ()):
+        rec = em.find_record(rn)
+        if rec is None:
+            raise ExtractionError("record %s not found" % rn)
+        em.need_struct(rec)
     for r in proof.roots:
         if isinstance(r, str):
             r = (r, None)
@@ -98,7 +103,7 @@ def build_c(mod, proof, ix):
     for h in mod.spec_headers:
         text.append('#include "%s"' % h)
     text.append(getattr(mod, "pre_c", ""))
-    text.append(em.text())
+    text.append(em.text(mid=getattr(mod, "post_struct_c", "")))
     text.append(proof.extra_c)
     if proof.harness is not None:
         text.append(proof.harness)
